@@ -166,7 +166,8 @@ type UDPSock struct {
 	N     *Net
 	Info  *SockInfo
 	Role  string // role name used for yields / faults, e.g. "listener", "relay", "client:c1"
-	laddr *net.UDPAddr
+	laddr *net.UDPAddr // what LocalAddr() hands out (callers may mutate it, like net.UDPConn's)
+	bound *net.UDPAddr // where the socket is really bound
 
 	mu      sync.Mutex
 	q       []*Dgram
@@ -197,7 +198,7 @@ func (n *Net) ListenUDP(role, owner string, ip net.IP, port int) (*UDPSock, erro
 	if _, used := n.udp[key]; used {
 		return nil, &net.OpError{Op: "listen", Net: "udp", Addr: &net.UDPAddr{IP: ip, Port: port}, Err: syscall.EADDRINUSE}
 	}
-	s := &UDPSock{N: n, Role: role, laddr: &net.UDPAddr{IP: ip, Port: port}, notify: make(chan struct{}, 1), QueueCap: 4096}
+	s := &UDPSock{N: n, Role: role, laddr: &net.UDPAddr{IP: ip, Port: port}, bound: &net.UDPAddr{IP: ip, Port: port}, notify: make(chan struct{}, 1), QueueCap: 4096}
 	s.Info = &SockInfo{Kind: "udp", Role: role, Owner: owner, Addr: key}
 	n.register(s.Info)
 	n.udp[key] = s
@@ -280,7 +281,7 @@ func (s *UDPSock) WriteTo(p []byte, addr net.Addr) (int, error) {
 	if s.N.Obs != nil {
 		s.N.Obs.UDPWrite(s, ua, p)
 	}
-	s.N.SendUDP(s.laddr, ua, p)
+	s.N.SendUDP(s.bound, ua, p)
 	return len(p), nil
 }
 
@@ -416,6 +417,7 @@ type TCPListener struct {
 	Info  *SockInfo
 	Role  string
 	laddr *net.TCPAddr
+	Bound *net.TCPAddr
 
 	mu     sync.Mutex
 	q      []*TCPConn
@@ -444,7 +446,7 @@ func (n *Net) ListenTCP(role, owner string, ip net.IP, port int) (*TCPListener, 
 	if _, used := n.tcpl[key]; used {
 		return nil, &net.OpError{Op: "listen", Net: "tcp", Err: syscall.EADDRINUSE}
 	}
-	l := &TCPListener{N: n, Role: role, laddr: &net.TCPAddr{IP: ip, Port: port}, notify: make(chan struct{}, 1)}
+	l := &TCPListener{N: n, Role: role, laddr: &net.TCPAddr{IP: ip, Port: port}, Bound: &net.TCPAddr{IP: ip, Port: port}, notify: make(chan struct{}, 1)}
 	l.Info = &SockInfo{Kind: "tcp-listener", Role: role, Owner: owner, Addr: key}
 	n.register(l.Info)
 	n.tcpl[key] = l
